@@ -366,3 +366,195 @@ Theorem C08_x_decoder_total_sparse_paginated : forall (wx : wfixes) (d : dsketch
   dec_sketch_into wx d b <> DPanic.
 Proof. exact decoder_total_kinds. Qed.
 Print Assumptions C08_x_decoder_total_sparse_paginated.
+
+(* ================================================================== *)
+(* Executable examples                                                 *)
+(* ================================================================== *)
+Definition xb (b : N) : f64 := f64_of_bits b.
+Definition x_0 := xb 0.
+Definition x_1 := xb 4607182418800017408.
+Definition x_2 := xb 4611686018427387904.
+Definition x_3 := xb 4613937818241073152.
+Definition x_5 := xb 4617315517961601024.
+Definition x_m1 := xb 13830554455654793216.
+Definition x_gamma := xb 4607272490792564818.    (* 1.02 *)
+Definition wxR : wfixes := {| fD2 := true; fD3 := true |}.
+Definition x_map : mapid := {| mk_kind := 0; mk_gamma := x_gamma; mk_off := x_0 |}.
+Definition kinds5 := [KDense; KSparse; KPag; KLow 2; KHigh 2].
+
+(* ---- a stream of the grammar: statistics blocks interleaved with the others, the three bins layouts,
+        a negative delta, a stride of 2; total count 3, sum 5, min -1, max 2 ---- *)
+Definition ex_x : stream :=
+  [BCount x_3; BSum x_5; BZeroCount x_2; BMapping 0 x_gamma x_0;
+   BStore false (IndexDeltasAndCounts [(3%Z, x_1); (2%Z, x_2)]);
+   BMin x_m1;
+   BStore false (IndexDeltas [9%Z; (-4)%Z]);
+   BStore true (ContiguousCounts (-7)%Z 2%Z [x_1; x_2]); BMax x_2].
+(* the premises of the C08_x / C07_x stream theorems hold for it, with receivers of every kind and variant *)
+Example C08_x_ex_stream_premises : wf_stream ex_x /\ idx_stream ex_x /\ nonneg_stream_w ex_x /\ maps_chain None ex_x.
+Proof. apply admissibleb_ok. vm_compute. reflexivity. Qed.
+Example C08_x_ex_receiver_premises : forall exact : bool,
+  Forall (fun k => ds_inv_x (ds_fresh None k exact)) kinds5.
+Proof.
+  intros exact. unfold kinds5.
+  repeat (apply Forall_cons; [apply fresh_inv_x; cbn; try exact I; discriminate|]). apply Forall_nil.
+Qed.
+Example C08_x_ex_bytes : serialize ex_x =
+  [160; 4; 132; 0; 0; 0; 0; 0; 0; 20; 64; 4; 3; 2; 82; 184; 30; 133; 235; 81; 240; 63; 0; 0; 0; 0; 0; 0; 0; 0;
+   5; 2; 6; 2; 4; 3; 136; 0; 0; 0; 0; 0; 0; 240; 191; 9; 2; 18; 7; 15; 2; 13; 4; 2; 3; 140; 0; 0; 0; 0; 0; 0; 0; 64]%N.
+Proof. vm_compute. reflexivity. Qed.
+(* C07_x_decoder_accepts_grammar: the exact decoder absorbs the statistics, the plain one ignores them *)
+Example C07_x_ex_exact_decoder : map (fun k => x_sig (dec_sketch_into wxR (ds_fresh None k true) (serialize ex_x))) [KPag; KLow 2] =
+  [inl ([(3%Z, 1%Q); (5%Z, 3%Q); (9%Z, 1%Q)], [((-7)%Z, 1%Q); ((-5)%Z, 2%Q)], 2%Q, Some (0%N, 4607272490792564818%N, 0%N),
+        Some (4613937818241073152%N, 4617315517961601024%N, 13830554455654793216%N, 4611686018427387904%N), []);
+   inl ([(8%Z, 4%Q); (9%Z, 1%Q)], [((-6)%Z, 1%Q); ((-5)%Z, 2%Q)], 2%Q, Some (0%N, 4607272490792564818%N, 0%N),
+        Some (4613937818241073152%N, 4617315517961601024%N, 13830554455654793216%N, 4611686018427387904%N), [])].
+Proof. vm_compute. reflexivity. Qed.
+Example C07_x_ex_plain_decoder : x_sig (dec_sketch_into wxR (ds_fresh None KPag false) (serialize ex_x)) =
+  inl ([(3%Z, 1%Q); (5%Z, 3%Q); (9%Z, 1%Q)], [((-7)%Z, 1%Q); ((-5)%Z, 2%Q)], 2%Q, Some (0%N, 4607272490792564818%N, 0%N), None, []).
+Proof. vm_compute. reflexivity. Qed.
+
+(* C08_x_unknown_flag_at_boundary. The decidable form of [known_flag]; 14 of the 256 bytes are defined flags *)
+Example C08_x_ex_known_flagb : forall f, known_flagb f = false -> ~ known_flag f.
+Proof. exact known_flagb_false. Qed.
+Example C08_x_ex_known_flags : length (filter known_flagb (map N.of_nat (seq 0 256))) = 14.
+Proof. vm_compute. reflexivity. Qed.
+(* sixteen undefined flags (all four flag types) substituted at EVERY one of the ten block boundaries of ex_x,
+   receivers of the five kinds, both variants of the decoder *)
+Example C08_x_ex_unknown_flag_every_boundary :
+  forallb (fun k => forallb (fun exact => forallb (fun i => forallb (fun f =>
+     if known_flagb f then false else
+     match dec_sketch_into wxR (ds_fresh None k exact) (serialize (firstn i ex_x) ++ f :: [1; 2; 3]%N) with
+     | DErr EUnknownFlag | DErr EUnknownBins | DErr EUnknownMapping => true | _ => false end)
+     [0; 8; 12; 16; 17; 19; 33; 35; 10; 18; 22; 128; 144; 164; 200; 255]%N) (seq 0 (S (length ex_x)))) [false; true]) kinds5 = true.
+Proof. vm_compute. reflexivity. Qed.
+(* all 256 bytes after the complete stream, paginated receiver, both variants *)
+Example C08_x_ex_unknown_flag_sweep :
+  forallb (fun exact => forallb (fun f =>
+     if known_flagb f then true else
+     match dec_sketch_into wxR (ds_fresh None KPag exact) (serialize ex_x ++ f :: [1; 2; 3]%N) with
+     | DErr EUnknownFlag | DErr EUnknownBins | DErr EUnknownMapping => true | _ => false end)
+     (map N.of_nat (seq 0 256))) [false; true] = true.
+Proof. vm_compute. reflexivity. Qed.
+
+(* C08_x_no_silent_truncation / C08_x_prefix_cases: the block boundaries of ex_x are at 0 2 11 13 30 36 45 49 55 64
+   bytes. For receivers of the five kinds and both variants, all 65 prefixes: success exactly at the boundaries
+   from the mapping block on; "missing index mapping" at the boundaries before it; io.EOF everywhere else *)
+Example C08_x_ex_boundaries :
+  map (fun i => length (serialize (firstn i ex_x))) (seq 0 (S (length ex_x))) = [0; 2; 11; 13; 30; 36; 45; 49; 55; 64].
+Proof. vm_compute. reflexivity. Qed.
+Definition cuts (sel : dres dsketch -> bool) (k : kind) (exact : bool) : list nat :=
+  filter (fun n => sel (dec_sketch_into wxR (ds_fresh None k exact) (firstn n (serialize ex_x)))) (seq 0 (S (length (serialize ex_x)))).
+Example C08_x_ex_no_silent_truncation :
+  map (fun k => map (fun exact =>
+    (cuts (fun r => match r with DOk _ [] => true | _ => false end) k exact,
+     cuts (fun r => match r with DErr EMissingMapping => true | _ => false end) k exact,
+     cuts (fun r => match r with DErr EEof => false | DErr EMissingMapping => false | DOk _ [] => false | _ => true end) k exact))
+    [false; true]) kinds5
+  = repeat (repeat ([30; 36; 45; 49; 55; 64], [0; 2; 11; 13], []) 2) 5.
+Proof. vm_compute. reflexivity. Qed.
+(* and the content at a boundary is the content of the complete blocks: after 45 bytes (six blocks) *)
+Example C08_x_ex_cut_content :
+  x_sig (dec_sketch_into wxR (ds_fresh None KDense true) (firstn 45 (serialize ex_x))) =
+  x_sig (dec_sketch_into wxR (ds_fresh None KDense true) (serialize (firstn 6 ex_x)))
+  /\ x_sig (dec_sketch_into wxR (ds_fresh None KDense true) (firstn 45 (serialize ex_x))) =
+     inl ([(3%Z, 1%Q); (5%Z, 2%Q)], [], 2%Q, Some (0%N, 4607272490792564818%N, 0%N),
+          Some (4613937818241073152%N, 4617315517961601024%N, 13830554455654793216%N, 13830554455654793216%N), []).
+Proof. vm_compute. split; reflexivity. Qed.
+
+(* ---- a sketch with exact summary statistics: Add(2.0, 5); Add(-1.0, 5); Add(0.0, 2); positive store dense
+        {3:1, 5:2, 70:2}; negative store paginated, -38 -7 -7 buffered, the page [-64,-33] holding -40:3 ---- *)
+Definition ex_exact : sketch := wit_sketch (Some wit_stats).
+Definition ex_plain : sketch := wit_sketch None.
+Example C06_x_ex_src_premises : sketch_src_ok ex_exact /\ sketch_src_ok ex_plain.
+Proof. split; apply wit_src_ok. Qed.
+Example C06_x_ex_stats : su_sig (sk_stats ex_exact) =
+  Some (4622945017495814144%N, 4617315517961601024%N, 13830554455654793216%N, 4611686018427387904%N).   (* 12, 5, -1, 2 *)
+Proof. vm_compute. reflexivity. Qed.
+(* C07_x_enc_sketch_grammar: count, sum, min, max, zero count, mapping, positive store (index deltas and counts),
+   negative store (index deltas for the buffer, one page of contiguous counts) *)
+Example C07_x_ex_encode_blocks : option_map (map block_sig) (ref_parse (snd (enc_sketch ex_exact false))) =
+  Some [(3%N, 0%N, (0%N, [], [4622945017495814144%N])); (4%N, 0%N, (0%N, [], [4617315517961601024%N]));
+        (5%N, 0%N, (0%N, [], [13830554455654793216%N])); (6%N, 0%N, (0%N, [], [4611686018427387904%N]));
+        (0%N, 0%N, (0%N, [], [4611686018427387904%N])); (1%N, 0%N, (0%N, [], [4607272490792564818%N; 0%N]));
+        (2%N, 0%N, (1%N, [3%Z; 2%Z; 65%Z], [4607182418800017408%N; 4611686018427387904%N; 4611686018427387904%N]));
+        (2%N, 1%N, (2%N, [(-7)%Z; 0%Z], []));
+        (2%N, 1%N, (3%N, [(-64)%Z; 1%Z],
+          [0; 0; 0; 0; 0; 0; 0; 0; 0; 0; 0; 0; 0; 0; 0; 0; 0; 0; 0; 0; 0; 0; 0; 0; 4613937818241073152; 0; 4607182418800017408; 0; 0; 0; 0; 0]%N))].
+Proof. vm_compute. reflexivity. Qed.
+(* the plain encoding of the same content is the same bytes without the 30 bytes of the four statistics blocks *)
+Example C07_x_ex_plain_is_suffix : skipn 30 (snd (enc_sketch ex_exact false)) = snd (enc_sketch ex_plain false)
+  /\ length (snd (enc_sketch ex_exact false)) = 98.
+Proof. vm_compute. split; reflexivity. Qed.
+(* C07_x_enc_sketch_ref_decode *)
+Example C07_x_ex_ref_decode : content_sig (ref_decode_raw (snd (enc_sketch ex_exact false))) =
+  Some ([(3%Z, 1%Q); (5%Z, 2%Q); (70%Z, 2%Q)], [((-40)%Z, 3%Q); ((-38)%Z, 1%Q); ((-7)%Z, 2%Q)], 2%Q,
+        Some (0%N, 4607272490792564818%N, 0%N),
+        ([4622945017495814144%N], [4617315517961601024%N], [13830554455654793216%N], [4611686018427387904%N])).
+Proof. vm_compute. reflexivity. Qed.
+(* C06_x_exact_roundtrip into fresh exact receivers of the five kinds: bins (clamped for the bounded ones), zero
+   count, mapping, and the four statistics bit for bit *)
+Example C06_x_ex_exact_roundtrip :
+  map (fun k => x_sig (dec_sketch_into wxR (ds_fresh None k true) (snd (enc_sketch ex_exact false)))) kinds5 =
+  map (fun pn => inl (fst pn, snd pn, 2%Q, Some (0%N, 4607272490792564818%N, 0%N),
+                      Some (4622945017495814144%N, 4617315517961601024%N, 13830554455654793216%N, 4611686018427387904%N), []))
+      [([(3%Z, 1%Q); (5%Z, 2%Q); (70%Z, 2%Q)], [((-40)%Z, 3%Q); ((-38)%Z, 1%Q); ((-7)%Z, 2%Q)]);
+       ([(3%Z, 1%Q); (5%Z, 2%Q); (70%Z, 2%Q)], [((-40)%Z, 3%Q); ((-38)%Z, 1%Q); ((-7)%Z, 2%Q)]);
+       ([(3%Z, 1%Q); (5%Z, 2%Q); (70%Z, 2%Q)], [((-40)%Z, 3%Q); ((-38)%Z, 1%Q); ((-7)%Z, 2%Q)]);
+       ([(69%Z, 3%Q); (70%Z, 2%Q)], [((-8)%Z, 4%Q); ((-7)%Z, 2%Q)]);
+       ([(3%Z, 1%Q); (4%Z, 4%Q)], [((-40)%Z, 3%Q); ((-39)%Z, 3%Q)])].
+Proof. vm_compute. reflexivity. Qed.
+(* C07_x_exact_into_plain / C07_x_plain_ignores_statistics: plain receivers, the exact and the plain encoding *)
+Example C07_x_ex_exact_into_plain :
+  map (fun k => x_sig (dec_sketch_into wxR (ds_fresh None k false) (snd (enc_sketch ex_exact false)))) kinds5 =
+  map (fun k => x_sig (dec_sketch_into wxR (ds_fresh None k false) (snd (enc_sketch ex_plain false)))) kinds5
+  /\ x_sig (dec_sketch_into wxR (ds_fresh None KPag false) (snd (enc_sketch ex_exact false))) =
+     inl ([(3%Z, 1%Q); (5%Z, 2%Q); (70%Z, 2%Q)], [((-40)%Z, 3%Q); ((-38)%Z, 1%Q); ((-7)%Z, 2%Q)], 2%Q,
+          Some (0%N, 4607272490792564818%N, 0%N), None, []).
+Proof. vm_compute. split; reflexivity. Qed.
+(* the code before the repair on the same bytes (the witness of C07_x_exact_into_plain_refuted_legacy) *)
+Example C07_x_ex_legacy :
+  map (fun k => x_sig (dec_sketch_into {| fD2 := false; fD3 := true |} (ds_fresh None k false) (snd (enc_sketch ex_exact false)))) kinds5 =
+  [inr (Some EUnknownFlag); inr (Some EUnknownFlag); inr (Some EUnknownFlag); inr (Some EUnknownFlag); inr (Some EUnknownFlag)].
+Proof. vm_compute. reflexivity. Qed.
+(* decoding into a non-empty exact receiver = merging, statistics included: twice the same sketch *)
+Example C06_x_ex_decode_twice :
+  match dec_sketch_into wxR (ds_fresh None KSparse true) (snd (enc_sketch ex_exact false)) with
+  | DOk d1 [] => x_sig (dec_sketch_into wxR d1 (snd (enc_sketch ex_exact false)))
+  | _ => inr None
+  end =
+  inl ([(3%Z, 2%Q); (5%Z, 4%Q); (70%Z, 4%Q)], [((-40)%Z, 6%Q); ((-38)%Z, 2%Q); ((-7)%Z, 4%Q)], 4%Q,
+       Some (0%N, 4607272490792564818%N, 0%N),
+       Some (4627448617123184640%N, 4621819117588971520%N, 13830554455654793216%N, 4611686018427387904%N), []).   (* 24, 10, -1, 2 *)
+Proof. vm_compute. reflexivity. Qed.
+(* C06_x_omit_roundtrip / C06_x_omit_missing_mapping: the mapping omitted (17 bytes shorter) *)
+Example C06_x_ex_omit :
+  length (snd (enc_sketch ex_exact true)) = 81
+  /\ map (fun ex => x_sig (dec_sketch_into wxR (ds_fresh None KPag ex) (snd (enc_sketch ex_exact true)))) [false; true]
+     = [inr (Some EMissingMapping); inr (Some EMissingMapping)]
+  /\ map (fun k => x_sig (dec_sketch_into wxR (ds_fresh (Some x_map) k false) (snd (enc_sketch ex_exact true)))) kinds5
+     = map (fun k => x_sig (dec_sketch_into wxR (ds_fresh None k false) (snd (enc_sketch ex_exact false)))) kinds5
+  /\ x_sig (dec_sketch_into wxR (ds_fresh (Some x_map) KPag true) (snd (enc_sketch ex_exact true)))
+     = x_sig (dec_sketch_into wxR (ds_fresh None KPag true) (snd (enc_sketch ex_exact false))).
+Proof. vm_compute. repeat split; reflexivity. Qed.
+(* C06_x_encode_keeps_state: Encode compacts the paginated negative store (the buffered -38 moves to its
+   page): the representation changes, the content does not; encoding again gives the same bytes *)
+Example C06_x_ex_encode_keeps_state :
+  (match sk_neg ex_exact with SP p => buffer p | _ => [] end) = [(-38)%Z; (-7)%Z; (-7)%Z]
+  /\ (match sk_neg (fst (enc_sketch ex_exact false)) with SP p => buffer p | _ => [] end) = [(-7)%Z; (-7)%Z]
+  /\ qbins (st_abs (sk_neg (fst (enc_sketch ex_exact false)))) = qbins (st_abs (sk_neg ex_exact))
+  /\ qbins (st_abs (sk_pos (fst (enc_sketch ex_exact false)))) = qbins (st_abs (sk_pos ex_exact))
+  /\ snd (enc_sketch (fst (enc_sketch ex_exact false)) false) = snd (enc_sketch ex_exact false).
+Proof. vm_compute. repeat split; reflexivity. Qed.
+
+(* C08_x_decoder_total_sparse_paginated: an index far outside int32 (2^62) is absorbed by a sparse receiver;
+   int32 extremes by the exact variant are refused only for the missing statistics *)
+Definition ex_far : stream :=
+  [BMapping 0 x_gamma x_0; BStore false (ContiguousCounts 0%Z 1%Z [x_1]); BStore false (ContiguousCounts 4611686018427387904%Z 1%Z [x_1])].
+Example C08_x_ex_far_bytes : serialize ex_far =
+  [2; 82; 184; 30; 133; 235; 81; 240; 63; 0; 0; 0; 0; 0; 0; 0; 0; 13; 1; 0; 2; 2;
+   13; 1; 128; 128; 128; 128; 128; 128; 128; 128; 128; 2; 2]%N.
+Proof. vm_compute. reflexivity. Qed.
+Example C08_x_ex_far_sparse : x_sig (dec_sketch_into wxR (ds_fresh None KSparse false) (serialize ex_far)) =
+  inl ([(0%Z, 1%Q); (4611686018427387904%Z, 1%Q)], [], 0%Q, Some (0%N, 4607272490792564818%N, 0%N), None, []).
+Proof. vm_compute. reflexivity. Qed.
